@@ -170,7 +170,7 @@ def work_instances(rng, big):
     W.append(dict(fam="enum-clause13-all", clauses=[list(range(1, k + 1))], count=2**k - 1, guard=300,
                   opts={"solution_limit": 10**6, "luby_factor": rng.choice([1, 2, 3])}))
     W.append(dict(fam="enum-clause13-limit", clauses=[list(range(1, k + 1))], count=2**k - 1, guard=300,
-                  opts={"solution_limit": rng.choice([5001, 5002, rng.randint(5003, 8000)]), "luby_factor": rng.choice([1, 2])}))
+                  opts={"solution_limit": rng.randint(5400, 8100), "luby_factor": rng.choice([1, 2])}))
     kk = rng.choice([10, 11, 12])
     W.append(dict(fam=f"enum-clause{kk}-asm", clauses=[list(range(1, kk + 2))], assumptions=[-rng.randint(1, kk + 1)], count=2**kk - 1, guard=300,
                   opts={"solution_limit": rng.choice([10**6, 2**kk - 1, 2**kk]), "luby_factor": rng.choice([1, 2, 100])}))
